@@ -7,6 +7,8 @@ def dispatchFlags (line : String) : String :=
   | "wf" :: args => handleWf args
   | "dclone" :: args => handleDclone args
   | "run" :: args => handleRun args
+  | "init" :: args => handleInit args
+  | "step" :: args => handleStep args
   | _ => "bad-op"
 
 partial def loopFlags (h : IO.FS.Stream) (out : IO.FS.Stream) : IO Unit := do
